@@ -157,7 +157,7 @@ theorem textOrTag_text_spec (pf : Bytes → Option UInt64) (ef fuel : Nat) (untl
     (hn : nxt.typ ≠ .tText) (hu : untl.contains .tText = false)
     (hf : comments.length + texts.length + 2 ≤ fuel) :
     ∃ st', textOrTag pf ef (fuel + 1) token untl st = .ok ((textNode comments t texts nxt, false), st') ∧
-      stream st'.p = nxt :: s := by
+      stream st'.p = nxt :: s ∧ st'.p.peekCount ≤ 2 := by
   -- seenComment: the token handed over is a Comment iff `comments` is not empty
   have hseen : (token.typ == ItemType.tComment) = !comments.isEmpty := by
     cases comments with
@@ -180,9 +180,9 @@ theorem textOrTag_text_spec (pf : Bytes → Option UInt64) (ef fuel : Nat) (untl
   rw [ht2, hs2, ← hx2, hs1] at hs3
   -- the Text tokens that follow
   obtain ⟨st4, hct, hs4, ht4, hp4⟩ := collectText_spec texts fuel t.val nxt s st3 (by omega) (by omega) hs3 hts hn
-  obtain ⟨st5, hb5, hs5, _⟩ := fbackup_stream (st := st4) hp4
+  obtain ⟨st5, hb5, hs5, hp5⟩ := fbackup_stream (st := st4) hp4
   rw [ht4, hs4] at hs5
-  refine ⟨st5, ?_, hs5⟩
+  refine ⟨st5, ?_, hs5, by omega⟩
   have hnu : untl.contains t.typ = false := by rw [ht]; exact hu
   have htx : (t.typ == ItemType.tText) = true := by rw [ht]; rfl
   have hld : (t.typ == ItemType.tLeftDelim) = false := by rw [ht]; rfl
@@ -669,6 +669,45 @@ theorem lexText_plain_then_open (pre post : Bytes)
   rw [h2, hp']
   simp [initLexer]
 
+/-! ### lifted to `lexAll` where the scan ends in `lexText`
+
+  When the first text run ends the scan — at the end of the input, or at a stray `}` — the
+  items `lexText` sends ARE the item list of `lexAll`: no other state function runs. -/
+
+/-- the run ends with the first state function: its items are the result -/
+theorem lexAll_of_lexText_end {input : Bytes} {lf : Lexer}
+    (h : lexText (initLexer input) = some (none, lf)) : lexAll input false = .items lf.items.toList := by
+  unfold lexAll Lex.fuelFor
+  simp only [Bool.false_eq_true, if_false]
+  show run (7 * input.length + 7 + 1) .text (initLexer input) = _
+  unfold run
+  simp only [step, h]
+
+/-- ASCII text without `/`, `{`, `}`, to the end of the input: `lexAll` is that text as ONE
+    Text item (none if it is empty or whitespace with a line break) and the EOF item -/
+theorem lexAll_plain_text (txt : Bytes) (htxt : ∀ b ∈ txt, b.toNat < 128 ∧ b ≠ 47 ∧ b ≠ 123 ∧ b ≠ 125) :
+    lexAll txt false = .items (textItems txt.toArray 0 txt.length ++ [⟨.tEOF, txt.length, []⟩]) := by
+  have hlen : (initLexer txt).len = (txt.length : Nat) := by simp [initLexer, Lexer.len]
+  obtain ⟨l', lc', hr, hp⟩ := plainRun_ascii txt.length (initLexer txt) 0 (by simp [initLexer])
+    (by rw [hlen]; simp [initLexer])
+    (by
+      intro i hi
+      have hb := htxt txt[i] (List.getElem_mem hi)
+      have e : byteAt (initLexer txt).input ((initLexer txt).pos.toNat + i) = (txt[i]).toNat := by
+        simp only [initLexer, Int.toNat_zero, Nat.zero_add]
+        have := byteAt_append_left txt [] i hi
+        simpa using this
+      rw [e]
+      refine ⟨hb.1, ?_, ?_, ?_⟩ <;> (intro h; first | exact hb.2.1 (UInt8.toNat_inj.mp h) | exact hb.2.2.1 (UInt8.toNat_inj.mp h) | exact hb.2.2.2 (UInt8.toNat_inj.mp h)))
+  have hp' : l'.pos = txt.length := by rw [hp]; simp [initLexer]
+  obtain ⟨_, _, _, hin, _⟩ := lexTextLoop_run hr
+  have hn := next_eof (l := l') (by
+    have : l'.len = (initLexer txt).len := by simp only [Lexer.len, hin]
+    rw [this, hlen, hp']; exact Int.le_refl _)
+  obtain ⟨lf, h1, h2⟩ := lexText_cut_eof hr hn (by simp [initLexer]) (by simp [initLexer]) (by rw [hlen]; simp [initLexer])
+  rw [lexAll_of_lexText_end (lf := lf) h1, h2, hp']
+  simp [initLexer]
+
 /-! ### Non-vacuity -/
 
 set_option maxRecDepth 20000
@@ -715,10 +754,138 @@ example : ∃ st', textOrTag (fun _ => none) 0 (5 + 1) ⟨.tComment, 7, [47, 42,
       { p := { rest := [⟨.tText, 13, [32, 97, 10, 32, 98]⟩, ⟨.tLeftDelim, 14, [123]⟩, ⟨.tEOF, 14, []⟩],
                tok0 := ⟨.tComment, 7, [47, 42, 120, 42, 47]⟩, tok1 := Item.zero, peekCount := 0 } } =
       .ok ((some (.rawText 13 [97, 32, 98]), false), st') ∧
-      stream st'.p = [⟨.tLeftDelim, 14, [123]⟩, ⟨.tEOF, 14, []⟩] :=
+      stream st'.p = [⟨.tLeftDelim, 14, [123]⟩, ⟨.tEOF, 14, []⟩] ∧ st'.p.peekCount ≤ 2 :=
   textOrTag_text_spec (fun _ => none) 0 5 [.tEOF] _ _ [⟨.tComment, 7, [47, 42, 120, 42, 47]⟩]
     ⟨.tText, 13, [32, 97, 10, 32, 98]⟩ [] ⟨.tLeftDelim, 14, [123]⟩ [⟨.tEOF, 14, []⟩]
     (by decide) rfl rfl (by decide) rfl (by decide) (by decide) rfl (by decide)
 
+
+/-! ## lexer ∘ parser on a source that is one run of text
+
+  The two sides composed where the lexer lemmas reach `lexAll`: a source consisting of plain
+  text only.  (For bodies with tags and comments the composition needs "`run` only appends to
+  `items`" through the lexer lemmas; see the note at the lexer part.) -/
+
+/-- the until-token ends the list: nothing is consumed -/
+theorem textOrTag_until (pf : Bytes → Option UInt64) (ef fuel : Nat) (untl : List ItemType) (token : Item) (st : FState)
+    (hc : token.typ ≠ .tComment) (hu : untl.contains token.typ = true) :
+    textOrTag pf ef (fuel + 2) token untl st = .ok ((none, true), st) := by
+  unfold textOrTag
+  simp only
+  rw [fbind_run]
+  have hsk : skipComments (fuel + 1) token st = .ok (token, st) := by
+    unfold skipComments
+    have : (token.typ == ItemType.tComment) = false := by simpa using hc
+    simp [this, pure, StateT.pure, Except.pure]
+  rw [hsk]
+  simp only [hu, if_true]
+  rfl
+
+/-- the top-level list over the two tokens `t` (Text) and `e` (EOF) -/
+theorem itemListLoop_text_only (pf : Bytes → Option UInt64) (ef f : Nat) (t e : Item) (ht : t.typ = .tText) (he : e.typ = .tEOF) :
+    ∃ st', itemListLoop pf ef (f + 4) [.tEOF] none .nil { p := initState [t, e] } =
+      .ok (.list t.pos (match textNode [] t [] e with | some n => .cons n .nil | none => .nil), st') := by
+  obtain ⟨st1, hn1, hs1, ht1, hp1⟩ := fnext_stream (st := { p := initState [t, e] }) (x := t) (s := [e]) (by simp [initState])
+    (by simp [stream, pending, initState])
+  obtain ⟨st2, hto, hs2, hp2⟩ := textOrTag_text_spec pf ef (f + 2) [.tEOF] t st1 [] t [] e []
+    (by rw [hp1]; simp [initState]) ht1 (by rw [hs1]; rfl) (fun _ h => absurd h (by simp)) ht (fun _ h => absurd h (by simp))
+    (by rw [he]; decide) (by decide) (by simp)
+  obtain ⟨st3, hn3, hs3, ht3, hp3⟩ := fnext_stream (st := st2) (x := e) (s := []) hp2 hs2
+  have hun := textOrTag_until pf ef f [.tEOF] e st3 (by rw [he]; decide) (by rw [he]; decide)
+  refine ⟨st3, ?_⟩
+  show itemListLoop pf ef ((f + 3) + 1) [.tEOF] none .nil { p := initState [t, e] } = _
+  unfold itemListLoop
+  rw [fbind_run, hn1]
+  simp only [Option.getD_none]
+  rw [fbind_run, hto]
+  simp only [Bool.false_eq_true, if_false]
+  cases hnode : textNode [] t [] e with
+  | none =>
+    simp only
+    show itemListLoop pf ef ((f + 2) + 1) [.tEOF] (some t.pos) .nil st2 = _
+    unfold itemListLoop
+    rw [fbind_run, hn3]
+    simp only [Option.getD_some]
+    rw [fbind_run, hun]
+    rfl
+  | some n =>
+    simp only
+    show itemListLoop pf ef ((f + 2) + 1) [.tEOF] (some t.pos) _ st2 = _
+    unfold itemListLoop
+    rw [fbind_run, hn3]
+    simp only [Option.getD_some]
+    rw [fbind_run, hun]
+    rfl
+
+/-- only the EOF token: an empty body -/
+theorem itemListLoop_eof_only (pf : Bytes → Option UInt64) (ef f : Nat) (e : Item) (he : e.typ = .tEOF) :
+    ∃ st', itemListLoop pf ef (f + 3) [.tEOF] none .nil { p := initState [e] } = .ok (.list e.pos .nil, st') := by
+  obtain ⟨st1, hn1, hs1, ht1, hp1⟩ := fnext_stream (st := { p := initState [e] }) (x := e) (s := []) (by simp [initState])
+    (by simp [stream, pending, initState])
+  have hun := textOrTag_until pf ef f [.tEOF] e st1 (by rw [he]; decide) (by rw [he]; decide)
+  refine ⟨st1, ?_⟩
+  show itemListLoop pf ef ((f + 2) + 1) [.tEOF] none .nil { p := initState [e] } = _
+  unfold itemListLoop
+  rw [fbind_run, hn1]
+  simp only [Option.getD_none]
+  rw [fbind_run, hun]
+  rfl
+
+theorem extract_full (txt : Bytes) : (txt.toArray.extract (0 : Int).toNat (txt.length : Int).toNat).toList = txt := by
+  simp
+
+/-- A source that is ONE run of plain text (ASCII, no `/`, `{`, `}`): lexer ∘ parser give the
+    single RawText node `joinLines txt false false`, positioned at the end of the text (the Text
+    token's position) — no node if the text is empty, is whitespace with a line break (the lexer
+    drops it), or normalises to nothing. -/
+theorem plain_text_source (pf : Bytes → Option UInt64) (txt : Bytes)
+    (htxt : ∀ b ∈ txt, b.toNat < 128 ∧ b ≠ 47 ∧ b ≠ 123 ∧ b ≠ 125) :
+    parseSource pf txt = .ok
+      (if txt ≠ [] ∧ Lex.allSpaceWithNewline txt = false ∧ (joinLines txt false false).isEmpty = false
+       then [.rawText txt.length (joinLines txt false false)] else []) := by
+  unfold parseSource
+  rw [lexAll_plain_text txt htxt]
+  simp only
+  unfold textItems
+  rw [extract_full]
+  by_cases hemit : ((txt.length : Int) > 0 ∧ Lex.allSpaceWithNewline txt = false)
+  · rw [if_pos hemit]
+    have hne : txt ≠ [] := by intro h; rw [h] at hemit; simp at hemit
+    simp only [List.cons_append, List.nil_append, Int.toNat_natCast]
+    obtain ⟨st', hl⟩ := itemListLoop_text_only pf (exprFuel [⟨.tText, txt.length, txt⟩, ⟨.tEOF, txt.length, []⟩]) 76
+      ⟨.tText, txt.length, txt⟩ ⟨.tEOF, txt.length, []⟩ rfl rfl
+    unfold parseFile
+    simp only [StateT.run]
+    have hfu : FileParser.fuelFor [(⟨.tText, txt.length, txt⟩ : Item), ⟨.tEOF, txt.length, []⟩].length = 76 + 4 := rfl
+    rw [hfu, hl]
+    simp only [textNode, List.flatMap_nil, List.append_nil, List.isEmpty_nil, Bool.not_true]
+    have hcm : (ItemType.tEOF == ItemType.tComment) = false := rfl
+    rw [hcm]
+    by_cases hj : joinLines txt false false = []
+    · simp [hj, NodeList.toList]
+    · simp [hj, hne, hemit.2, NodeList.toList]
+  · rw [if_neg hemit]
+    simp only [List.nil_append, Int.toNat_natCast]
+    obtain ⟨st', hl⟩ := itemListLoop_eof_only pf (exprFuel [⟨.tEOF, txt.length, []⟩]) 69 ⟨.tEOF, txt.length, []⟩ rfl
+    unfold parseFile
+    simp only [StateT.run]
+    have hfu : FileParser.fuelFor [(⟨.tEOF, txt.length, []⟩ : Item)].length = 69 + 3 := rfl
+    rw [hfu, hl]
+    have : ¬ (txt ≠ [] ∧ Lex.allSpaceWithNewline txt = false ∧ (joinLines txt false false).isEmpty = false) := by
+      intro ⟨h1, h2, _⟩
+      apply hemit
+      refine ⟨?_, h2⟩
+      cases txt with
+      | nil => exact absurd rfl h1
+      | cons b r => simp
+    rw [if_neg this]
+    rfl
+
+/-- the hypothesis is satisfiable: `a⏎ b` as a whole source (the result is `RawText 4 "a b"`,
+    as the driver's `parsesrc` shows; the `if` is not evaluated here because `allSpaceWithNewline`
+    is defined by well-founded recursion) -/
+example (pf : Bytes → Option UInt64) := plain_text_source pf [97, 10, 32, 98] (by decide)
+
+example : joinLines [97, 10, 32, 98] false false = [97, 32, 98] := by rfl
 
 end SoyVerif.Props.C15b
